@@ -53,7 +53,7 @@ def real_case(draw, max_n=256):
 
 def run_imf(emd, x, case, sig):
     try:
-        imf, flag = emd.sift.get_next_imf(x[:, None].copy(), envelope_opts={'interp_method': case['interp']},
+        imf, flag = emd.sift.get_next_imf(gens.arg(x)[:, None], envelope_opts={'interp_method': case['interp']},
                                           extrema_opts={'pad_width': case['pad']}, **case['opts'])
         return np.asarray(imf)[:, 0], bool(flag)
     except emd.support.EMDSiftCovergeError:
@@ -67,7 +67,7 @@ def run_sift(emd, x, case, thresh, sig):
     # components of up to 1000 iterations each); the relations hold for capped runs just the same
     cap = None if x.size <= 100 else 8
     try:
-        return np.asarray(emd.sift.sift(x.copy(), sift_thresh=thresh, max_imfs=cap, imf_opts=dict(case['opts']),
+        return np.asarray(emd.sift.sift(gens.arg(x), sift_thresh=thresh, max_imfs=cap, imf_opts=dict(case['opts']),
                                         envelope_opts={'interp_method': case['interp']},
                                         extrema_opts={'pad_width': case['pad']}))
     except emd.support.EMDSiftCovergeError:
